@@ -30,8 +30,8 @@ ASSUMPTIONS = [
     "GenericSpatialTransform (spatial/generic.py) is a SequentialTransform built from a configuration; only its SequentialTransform behaviour is covered",
 ]
 
-# the family of grids: ids 0,1,3,4 share centre and corner points hull (4 x 3 world units); 2 and 5 have the sample points of 0 and 1
-# but align_corners=False, so they compare equal to 0 / 1 under Grid.__eq__
+# the family of grids: ids 0,1,3,4,6 share centre and corner points hull (4 x 3 world units); 2 and 5 have the sample points of 0 and 1
+# but align_corners=False: equal to 0 / 1 under Grid.__eq__, different under the test of SpatialTransform.grid_
 GRIDS = [
     {"size": [5, 4], "spacing": [1, 1], "align": True},
     {"size": [9, 7], "spacing": [0.5, 0.5], "align": True},
@@ -44,7 +44,7 @@ GRIDS = [
 KINDS = ["disp", "svf", "ffd", "svffd", "lin"]
 COQK = {"disp": "KDisp", "svf": "KSvf", "ffd": "KFfd", "svffd": "KSvffd", "lin": "KLin", "seq": "KSeq"}
 ERRS = ["TypeErr", "ValueErr", "AssertErr", "AttrErr", "ReadOnly", "NotImpl", "IndexErr"]
-CREATING = ("new", "seq", "inverse", "copy")
+CREATING = ("new", "seq", "inverse", "copy", "cond")
 
 
 def ext(g):
@@ -102,6 +102,8 @@ def coq_op(op):
         return f"GridSet {T} {o} {op['grid']}"
     if k == "cond_":
         return f"CondSet {T} {o} ({op['c'][0]}, {op['c'][1]})%nat"
+    if k == "cond":
+        return f"CondNew {T} {o} ({op['c'][0]}, {op['c'][1]})%nat"
     if k == "inverse":
         return f"Inverse {T} {o} {b(op['link'])} {b(op['upd'])}"
     if k == "link_":
